@@ -6,6 +6,7 @@ library and the model.  Oracle / monitoring: the real library runs with a 1 MiB 
 CPU limit on nesting families of depth 1..10^6, long discard runs, and generated/corrupted
 documents; wall time must grow at most quadratically with the input length."""
 import json
+import resource
 import time
 
 from .. import common as C
@@ -89,9 +90,11 @@ def run(tier):
                     d = b"{" + b" ".join(b":k%d %d" % (i, i) for i in range(n // 10)) + b"}"
                 else:
                     d = [x for nm, k, x in families(cfg, [n // 4]) if nm == name][0]
-                t0 = time.time()
+                # CPU time of the child process (not wall time: the machine may be busy)
+                r0 = resource.getrusage(resource.RUSAGE_CHILDREN)
                 out, cr = K.run_impl(cfg, K.read_lines([d]), mode="o2", cpu_s=120, nchunks=1)
-                times.append((len(d), time.time() - t0))
+                r1 = resource.getrusage(resource.RUSAGE_CHILDREN)
+                times.append((len(d), (r1.ru_utime + r1.ru_stime) - (r0.ru_utime + r0.ru_stime)))
             rep.count("timing/" + name, 3)
             (n1, t1), (n2, t2), (n3, t3) = times
             rep.coverage.setdefault("timings", {})["%s/%s" % (cfg, name)] = [(n, round(t, 3)) for n, t in times]
